@@ -207,6 +207,51 @@ def nat_superrun(params, model):
     return {"ok": label is None, "detail": label or "equals the concatenation of the subruns", "label": label}
 
 
+# ---------------------------------------------------------------------------- Chunk.split: run id of the pieces
+def _splitrun_chunk(s1, e1, s2, e2, obj):
+    import strax
+
+    DT = np.dtype([("time", np.int64), ("endtime", np.int64), ("id", np.int64)])
+    data = arrays.make(DT, 0) if obj else np.zeros(0, DT)
+    return strax.Chunk(data_type="x", data_kind="k", dtype=arrays.obj_dtype(DT) if obj else DT, run_id=SUP, start=s1, end=e2,
+                       data=data, superrun={"1": {"start": s1, "end": e1}, "2": {"start": s2, "end": e2}})
+
+
+def _splitrun_check(c, pieces, t):
+    """each piece: its run id is the superrun's name when it holds several runs, else THE run it holds"""
+    for side, p in zip(("left", "right"), pieces):
+        sr = p.superrun
+        if sr is not None and len(sr) == 1:
+            only = list(sr)[0]
+            prove(p.run_id == only, f"splitrun:{side} piece of a split at {t} records only run {only} "
+                                    f"({dict(sr)}) but calls itself run {p.run_id}")
+        elif sr is not None and len(sr) > 1:
+            prove(p.run_id == SUP, f"splitrun:{side} piece holds runs {list(sr)} but calls itself run {p.run_id}")
+    return [p.run_id for p in pieces]
+
+
+def sym_splitrun():
+    """a row-less superrun chunk over two subruns with symbolic spans (zero-duration spans included), split at a
+    symbolic time"""
+    s1 = fresh_int("s1", 0, 1000); e1 = fresh_int("e1", 0, 1000)
+    s2 = fresh_int("s2", 0, 1000); e2 = fresh_int("e2", 0, 1000)
+    assume(sand(s1 <= e1, e1 <= s2, s2 <= e2, s1 < e2))
+    t = fresh_int("t", 0, 1000)
+    assume(sand(s1 <= t, t <= e2))
+    c = _splitrun_chunk(s1, e1, s2, e2, True)
+    return _splitrun_check(c, c.split(t, allow_early_split=True), t)
+
+
+def nat_splitrun(params, model):
+    m = lambda k: model.get(k, 0) or 0
+    try:
+        c = _splitrun_chunk(m("s1"), m("e1"), m("s2"), m("e2"), False)
+    except ValueError as e:
+        return {"ok": None, "detail": f"precondition not met natively: {e}"}
+    label = core.concrete_run(lambda: _splitrun_check(c, c.split(m("t"), allow_early_split=True), m("t")), model)
+    return {"ok": label is None, "detail": label or "run ids of the pieces agree with their run spans", "label": label}
+
+
 def sym_twin():
     sym_superrun({"0": [1], "1": [1]})
     prove(False, "twin:reachable")
@@ -232,6 +277,8 @@ def _grid(tier):
 
 
 MUTANTS = [
+    dict(name="piece named after the first run of the unsplit chunk (original defect F-C14g)", file="strax/chunk.py", only="splitrun",
+         old="            run_id_first_chunk = list(superrun_first_chunk.keys())[0]", new="            run_id_first_chunk = list(self.superrun.keys())[0]"),
     dict(name="original F-C14/F-C14e: split keeps the whole subrun spans when continuity is not promised", file="strax/chunk.py",
          old="        subruns_first_chunk, subruns_second_chunk = _split_runs_in_chunk(self.subruns, t)\n",
          new="        if self.promised_continuity:\n            subruns_first_chunk, subruns_second_chunk = _split_runs_in_chunk(self.subruns, t)\n        else:\n            subruns_first_chunk = subruns_second_chunk = self.subruns\n"),
@@ -250,5 +297,7 @@ OBLIGATIONS = [
     Ob("superrun", sym_superrun, _grid, nat_superrun, setup=_setup, witnesses=1,
        doc="superrun result == subruns concatenated in start order (on the fly, written + re-read, depth 1 and 2); chunks "
            "record exactly their subruns and spans; redefinition invalidates stored data"),
+    Ob("splitrun", sym_splitrun, lambda tier: [dict()], nat_splitrun, setup=_setup, witnesses=2,
+       doc="Chunk.split of a superrun chunk: a piece that records one run carries that run's id"),
     Ob("twin", sym_twin, lambda tier: [dict()], None, setup=_setup, expect_cex=True),
 ]
